@@ -31,6 +31,8 @@ type harnessState struct {
 	dir  string
 	db   anystore.DB
 	hs   headstorage.HeadStorage
+
+	disagreements int
 }
 
 func newHarness(r *corr.Run) *harnessState {
@@ -40,7 +42,7 @@ func newHarness(r *corr.Run) *harnessState {
 		r.Fatal("tempdir: " + err.Error())
 	}
 	h.dir = dir
-	db, err := anystore.Open(context.Background(), dir+"/changes.db", nil)
+	db, err := anystore.Open(context.Background(), dir+"/changes.db", &anystore.Config{SQLiteConnectionOptions: map[string]string{"synchronous": "off"}})
 	if err != nil {
 		r.Fatal("any-store open: " + err.Error())
 	}
@@ -76,7 +78,26 @@ type treeCase struct {
 	ops      []string           // model lines sent so far (replay)
 }
 
+// check records a model/implementation disagreement; after a few of them only counts, so that the
+// (bounded) issue list keeps room for oracle violations, which carry the failing input.
+func (tc *treeCase) check(stream, model, impl string) {
+	if model == impl {
+		return
+	}
+	if tc.h.disagreements >= 6 {
+		tc.r.Count("disagreements.not-listed")
+		return
+	}
+	tc.h.disagreements++
+	tc.r.Check("C02", stream, append([]string{"# acl history: " + strings.Join(tc.w.cmds, " ; ")}, tc.ops...), model, impl)
+}
+
+func (tc *treeCase) violate(stream, desc string) {
+	tc.r.Violate("C02", "", stream, desc, append([]string{"# acl history: " + strings.Join(tc.w.cmds, " ; ")}, tc.ops...))
+}
+
 func (tc *treeCase) ask(line string) string {
+	defer timed("model")()
 	tc.ops = append(tc.ops, line)
 	return tc.r.Ask(line)
 }
@@ -199,6 +220,7 @@ type obs struct {
 }
 
 func (tc *treeCase) observe() obs {
+	defer timed("observe")()
 	var o obs
 	ctx := context.Background()
 	o.heads = append([]string(nil), tc.tree.Heads()...)
@@ -357,6 +379,8 @@ func (tc *treeCase) open(root *rawCh) bool {
 	p.label = root.label
 	model := tc.ask("tree " + tc.wire(p))
 	var impl string
+	stopOpen := timed("open")
+	defer stopOpen()
 	st, err := objecttree.CreateStorage(ctx, root.proto(), tc.h.hs, tc.h.db)
 	if err != nil {
 		impl = "err:" + classify(err)
@@ -373,16 +397,15 @@ func (tc *treeCase) open(root *rawCh) bool {
 			impl = "ok"
 		}
 	}
-	tc.r.Check("C02", "auth.tree", tc.ops, model, impl)
+	tc.check("auth.tree", model, impl)
 	tc.r.Count("tree." + impl)
 	tc.r.Count("tree.root." + root.label)
 	okA, why := tc.authentic(p, nil)
 	if impl == "ok" {
 		if !okA {
-			tc.r.Violate("C02", "", "auth.tree.oracle", "tree was built over root ("+root.label+") although "+why, tc.ops)
-		} else {
-			tc.attached[root.id] = p
+			tc.violate("auth.tree.oracle", "tree was built over root ("+root.label+") although "+why)
 		}
+		tc.attached[root.id] = p
 		tc.builder = objecttree.NewChangeBuilder(crypto.NewKeyStorage(), root.proto())
 		return true
 	}
@@ -418,6 +441,7 @@ func (tc *treeCase) add(batch []*rawCh, tag string) string {
 		}()
 		tc.tree.Lock()
 		defer tc.tree.Unlock()
+		defer timed("AddRawChanges")()
 		res, err = tc.tree.AddRawChanges(ctx, objecttree.RawChangesPayload{NewHeads: nil, RawChanges: raws})
 	}()
 	after := tc.observe()
@@ -427,14 +451,14 @@ func (tc *treeCase) add(batch []*rawCh, tag string) string {
 		added = append(added, a.Id)
 	}
 	impl := fmt.Sprintf("%s add=%s %s", status, orderedNums(tc, added), tc.post(after))
-	tc.r.Check("C02", "auth.add", tc.ops, model, impl)
+	tc.check("auth.add", model, impl)
 	tc.r.Count("add.outcome." + strings.SplitN(status, ":", 2)[0])
 	tc.r.Count("add.ctx." + tag)
 	// oracle 1: only authentic changes become attached / persisted
 	tc.checkNew("auth.add.oracle", before, after, ps)
 	// oracle 2: a rejected batch is a no-op on heads, iteration order, storage
 	if err != nil && before.exact() != after.exact() {
-		tc.r.Violate("C02", "", "auth.add.noop", "a rejected batch ("+status+") changed heads / iteration / storage", tc.ops)
+		tc.violate("auth.add.noop", "a rejected batch ("+status+") changed heads / iteration / storage")
 	}
 	// oracle 3 (consistency of the reply): on success the reported additions are what became attached and stored
 	if err == nil {
@@ -449,7 +473,7 @@ func (tc *treeCase) add(batch []*rawCh, tag string) string {
 			}
 		}
 		if strings.Join(sortedCopy(newIter), ",") != strings.Join(sortedCopy(added), ",") {
-			tc.r.Violate("C02", "", "auth.add.result", "AddResult.Added differs from what became attached", tc.ops)
+			tc.violate("auth.add.result", "AddResult.Added differs from what became attached")
 		}
 	}
 	// evidence: authentic changes that did not make it (never a C02 violation: C02 is only-if)
@@ -457,13 +481,26 @@ func (tc *treeCase) add(batch []*rawCh, tag string) string {
 	for k, v := range tc.attached {
 		env[k] = v
 	}
+	allAuth := len(ps) > 0
 	for _, p := range ps {
 		if _, in := tc.attached[p.id]; in {
 			continue
 		}
 		if ok, _ := tc.authentic(p, env); ok {
 			tc.r.Count("oracle.authentic-not-attached." + strings.SplitN(status, ":", 2)[0])
+			env[p.id] = p
+		} else {
+			allAuth = false
 		}
+	}
+	if allAuth && err != nil {
+		// every delivered change satisfies the property's conditions, yet the batch was refused:
+		// valid changes lost (only F-acl-readd is known to cause this)
+		k := "other"
+		if tc.w.hasReadd {
+			k = "readd-history"
+		}
+		tc.r.Count("oracle.all-authentic-batch-rejected." + k + "." + status)
 	}
 	return status
 }
@@ -476,7 +513,7 @@ func (tc *treeCase) reopen(tag string) bool {
 	if err != nil {
 		impl = "err"
 	}
-	tc.r.Check("C02", "auth.reopen", tc.ops, model, impl)
+	tc.check("auth.reopen", model, impl)
 	tc.r.Count("reopen." + tag + "." + impl)
 	if err != nil {
 		// every stored change was authentic when it was stored; count what full validation now loses
@@ -491,7 +528,7 @@ func (tc *treeCase) reopen(tag string) bool {
 	o := tc.observe()
 	for _, id := range o.iter {
 		if _, ok := tc.attached[id]; !ok {
-			tc.r.Violate("C02", "", "auth.reopen.oracle", fmt.Sprintf("change %d is in the reopened tree but was never authenticated", tc.chNum(id)), tc.ops)
+			tc.violate("auth.reopen.oracle", fmt.Sprintf("change %d is in the reopened tree but was never authenticated", tc.chNum(id)))
 		}
 	}
 	return true
